@@ -136,6 +136,9 @@ class HTTPProxyConnectionPool(ConnectionPool):
         host = '[{}]'.format(address[0]) if ':' in address[0] else address[0]
         port = address[1]
         request = RawRequest('CONNECT', '{0}:{1}'.format(host, port))
+        # Every HTTP/1.1 request has a Host field; for CONNECT it is the
+        # authority of the target (RFC 7230 section 5.4).
+        request.fields['Host'] = '{0}:{1}'.format(host, port)
 
         self.add_auth_header(request)
 
